@@ -90,14 +90,19 @@ theorem CpSet.mem_elems (S : CpSet) (c : Nat) (h : S.mem c = true) : c ∈ S.ele
   simp only [CpSet.elems, List.mem_flatMap, List.mem_range'_1]
   exact ⟨r, hr, h1', by omega⟩
 
-/-- `str.isspace` and `\s` are the same set of code points -/
-theorem spaceSet_eq : Gen.spaceSet = Gen.atom10 := by decide +kernel
+/-- the action yields a token of a Whitespace type -/
+def wsAct : Action → Bool
+  | .tok tt => tt.isIn T.Whitespace
+  | _ => false
 
-theorem re5_eq : Gen.re5 = .rep 1 none false (.set Gen.atom10) := rfl
+/-- `\s+?` over exactly the `str.isspace` code points, with action `Whitespace` -/
+def wsRule : Rule := ⟨.rep 1 none false (.set Gen.spaceSet), .tok T.Whitespace⟩
 
-/-- none of the comment rules (the rules before the two whitespace rules) can start at a whitespace character -/
-theorem dead_before_ws :
-    (Gen.atom10.elems.all fun c => (Gen.rules.take 4).all fun r => start c r.re == .dead) = true := by decide +kernel
+/-- table obligation: the table contains the whitespace rule (so `\s` and `str.isspace` are the same set), and every rule before it
+either yields a Whitespace-typed token itself (the newline rule) or cannot start at any whitespace character (the comment rules) -/
+theorem ws_rule_first :
+    firstWith (fun x => wsAct x.act || Gen.spaceSet.elems.all (fun c => deadOn c x)) wsRule defaultCfg.rules = true := by
+  decide +kernel
 
 theorem repAux_lazy1_ne (step : St → List St) (fuel : Nat) (st a : St) (h : step st = [a]) (ha : st.pos < a.pos) :
     repAux step false (fuel + 1) 1 none st ≠ [] := by
@@ -115,41 +120,47 @@ theorem ws_rule_matches (E : Env) (S : CpSet) (p : Nat) (c : Cp) (hc : E.s[p]? =
   rw [derivs_rep]
   exact repAux_lazy1_ne _ _ _ _ hstep (by simp)
 
-theorem firstMatch_two (E : Env) (pre : List Rule) (r1 r2 : Rule) (post : List Rule) (p : Nat)
-    (hpre : ∀ x ∈ pre, derivs E x.re ⟨p, []⟩ = []) (h2 : derivs E r2.re ⟨p, []⟩ ≠ []) :
-    ∃ e, firstMatch E (pre ++ r1 :: r2 :: post) p = some (r1.act, e) ∨
-         firstMatch E (pre ++ r1 :: r2 :: post) p = some (r2.act, e) := by
-  cases h1 : derivs E r1.re ⟨p, []⟩ with
-  | cons st more => exact ⟨st.pos, Or.inl (firstMatch_split E pre r1 _ p hpre st more h1)⟩
+theorem firstMatch_good (E : Env) (good : Action → Bool) (r : Rule) (back : List Rule) (p : Nat)
+    (hr : derivs E r.re ⟨p, []⟩ ≠ []) (hg : good r.act = true) :
+    ∀ front : List Rule, (∀ x ∈ front, good x.act = true ∨ derivs E x.re ⟨p, []⟩ = []) →
+      ∃ act e, firstMatch E (front ++ r :: back) p = some (act, e) ∧ good act = true := by
+  intro front
+  induction front with
   | nil =>
-    cases h2' : derivs E r2.re ⟨p, []⟩ with
-    | nil => exact absurd h2' h2
+    intro _
+    cases hd : derivs E r.re ⟨p, []⟩ with
+    | nil => exact absurd hd hr
+    | cons st more => exact ⟨r.act, st.pos, by simp [firstMatch, matchAt, hd], hg⟩
+  | cons x xs ih =>
+    intro hf
+    cases hd : derivs E x.re ⟨p, []⟩ with
+    | nil =>
+      obtain ⟨act, e, h1, h2⟩ := ih (fun y hy => hf y (by simp [hy]))
+      exact ⟨act, e, by simp only [List.cons_append, firstMatch, matchAt, hd, List.head?_nil]; exact h1, h2⟩
     | cons st more =>
-      refine ⟨st.pos, Or.inr ?_⟩
-      have := firstMatch_split E (pre ++ [r1]) r2 post p (by
-        intro x hx
-        simp only [List.mem_append, List.mem_singleton] at hx
-        rcases hx with hx | rfl
-        · exact hpre x hx
-        · exact h1) st more h2'
-      simpa using this
+      rcases hf x (by simp) with hx | hx
+      · exact ⟨x.act, st.pos, by simp [firstMatch, matchAt, hd], hx⟩
+      · rw [hx] at hd; exact absurd hd (by simp)
 
-/-- at a whitespace character the scan step yields a Newline or a Whitespace token -/
+/-- at a whitespace character the scan step yields a token of a Whitespace type -/
 theorem firstMatch_at_space (s : Array Cp) (p : Nat) (c : Cp) (hc : (defaultCfg.env s).s[p]? = some c)
     (hsp : isSpace c = true) :
-    ∃ e, firstMatch (defaultCfg.env s) defaultCfg.rules p = some (.tok T.Newline, e) ∨
-         firstMatch (defaultCfg.env s) defaultCfg.rules p = some (.tok T.Whitespace, e) := by
-  have hm : Gen.atom10.mem c = true := by rw [← spaceSet_eq]; exact hsp
-  have hd := dead_before_ws
-  simp only [List.all_eq_true] at hd
-  have hdc := hd c (CpSet.mem_elems _ c hm)
-  have hpre := no_match_of_start (defaultCfg.env s) c (Gen.rules.take 4) (by simpa using hdc) p hc
-  have h5 : derivs (defaultCfg.env s) Gen.rule5.re ⟨p, []⟩ ≠ [] := by
-    show derivs _ Gen.re5 _ ≠ []
-    rw [re5_eq]; exact ws_rule_matches _ _ p c hc hm
-  have hsplit : defaultCfg.rules = Gen.rules.take 4 ++ Gen.rule4 :: Gen.rule5 :: Gen.rules.drop 6 := rfl
-  rw [hsplit]
-  exact firstMatch_two _ _ Gen.rule4 Gen.rule5 _ p hpre h5
+    ∃ tt e, firstMatch (defaultCfg.env s) defaultCfg.rules p = some (.tok tt, e) ∧ tt.isIn T.Whitespace = true := by
+  have hm : Gen.spaceSet.mem c = true := hsp
+  obtain ⟨front, back, hrules, hf⟩ := firstWith_spec _ _ _ ws_rule_first
+  have h5 : derivs (defaultCfg.env s) wsRule.re ⟨p, []⟩ ≠ [] := ws_rule_matches _ _ p c hc hm
+  obtain ⟨act, e, h1, h2⟩ := firstMatch_good (defaultCfg.env s) wsAct wsRule back p h5 (by decide) front (by
+    intro x hx
+    have := hf x hx
+    simp only [Bool.or_eq_true, List.all_eq_true] at this
+    rcases this with h | h
+    · exact Or.inl h
+    · exact Or.inr (deadOn_at _ c x (h c (CpSet.mem_elems _ c hm)) p hc))
+  rw [hrules]
+  cases act with
+  | tok tt => exact ⟨tt, e, h1, h2⟩
+  | kw => simp [wsAct] at h2
+  | other => simp [wsAct] at h2
 
 /-! ## first character of a token that is not of a Whitespace type -/
 
@@ -182,7 +193,8 @@ theorem scan_nonws_first (s : Array Cp) : ∀ (p : Nat) (ts : List Tok), Scan de
       cases hsp : isSpace c with
       | false => rfl
       | true =>
-        obtain ⟨e, h1 | h1⟩ := firstMatch_at_space s p c hc hsp <;> rw [hfm] at h1 <;> simp at h1
+        obtain ⟨tt, e, h1, _⟩ := firstMatch_at_space s p c hc hsp
+        rw [hfm] at h1; simp at h1
     · exact ih t ht hws
   | tok p act e ts hpe _ hfm hact _ ih =>
     intro t ht hws
@@ -196,9 +208,13 @@ theorem scan_nonws_first (s : Array Cp) : ∀ (p : Nat) (ts : List Tok), Scan de
       | false => rfl
       | true =>
         exfalso
-        obtain ⟨e', h1 | h1⟩ := firstMatch_at_space s p _ hc hsp <;> rw [hfm] at h1 <;>
-          simp only [Option.some.injEq, Prod.mk.injEq] at h1 <;> obtain ⟨h1, _⟩ := h1 <;> subst h1 <;>
-          simp only [tokType] at hws <;> revert hws <;> decide
+        obtain ⟨tt, e', h1, h2⟩ := firstMatch_at_space s p _ hc hsp
+        rw [hfm] at h1
+        simp only [Option.some.injEq, Prod.mk.injEq] at h1
+        obtain ⟨h1, _⟩ := h1
+        subst h1
+        simp only [tokType] at hws
+        rw [h2] at hws; exact absurd hws (by simp)
     · exact ih t ht hws
 
 /-- **every token that is not of a Whitespace type starts with a non-space character** -/
